@@ -13,7 +13,7 @@ RULE = (
     "Hypothesis draws connected networks with nothing to pre-simplify, by "
     "construction (spanning bonds + extra bonds, hyper labels on <n tensors, "
     "dangling output labels, batch outputs; distinct non-empty label sets; "
-    "sizes 2..5), n=3..6 (thorough: ..7), x objective in {flops,size,write,"
+    "sizes 1..5), n=3..6 and in a tenth of the cases 7 (thorough: ..7 throughout), x objective in {flops,size,write,"
     "max,combo,combo-k,limit,limit-k} x search_outer x initial cost_cap in "
     "{2, small, exactly the optimum, huge}, through optimize_optimal and "
     "OptimalOptimizer. Oracle: ALL (2n-3)!! trees are enumerated and scored "
@@ -84,7 +84,8 @@ def simple_networks(draw, max_n):
             out.append(ix)
     inputs = [list(draw(st.permutations(t))) for t in terms]
     out = list(draw(st.permutations(out))) if out else []
-    sizes = {ix: draw(st.integers(2, 5)) for ix in labels}
+    # (size-1 labels are legitimate: a bond of dimension 1 still connects)
+    sizes = {ix: draw(st.sampled_from([1, 2, 2, 3, 3, 4, 5])) for ix in labels}
     return {"inputs": inputs, "output": out, "sizes": sizes}
 
 
@@ -101,7 +102,10 @@ def cases(draw, max_n):
 
 
 def strategy(tier, sub=None):
-    return cases(7 if tier == "thorough" else 6)
+    if tier == "thorough":
+        return cases(7)
+    # quick: mostly n <= 6, a tenth of the cases may have 7 tensors (10 395 trees)
+    return st.integers(0, 9).flatmap(lambda i: cases(7) if i == 0 else cases(6))
 
 
 def budget(tier, sub=None):
